@@ -508,6 +508,14 @@ impl GuiState {
         } else if line.starts_with("error: Unable to change TT size during search") {
             self.refused_setoptions += 1;
             probe(&mut self.probes, "setoption_lost_try_lock_race");
+            // before the first `go` of the session there is no search that could hold the tables
+            if self.gos.is_empty() {
+                self.violation(
+                    "option-refused-idle",
+                    format!("`{line}` although no search has been started yet in this session"),
+                    "option-refused-idle".into(),
+                );
+            }
         }
     }
 }
